@@ -3,7 +3,7 @@
    LALR tables, token numbers and semantic actions translated from
    sql/parser.go, and the grammar translated from sql/parser.go.y, on THIS run. *)
 From Coq Require Import ZArith List String.
-From SQ Require Import Gen.ParserTables Model.SqlParse.
+From SQ Require Import Gen.ParserTables Model.SqlParse Proofs.ParseP.
 Import ListNotations.
 Open Scope string_scope.
 Open Scope Z_scope.
@@ -20,6 +20,16 @@ Print Assumptions C16_decisions_in_range.
 Theorem C16_gotos_in_range : gotos_ok = true.
 Proof. vm_compute. reflexivity. Qed.
 Print Assumptions C16_gotos_in_range.
+
+(* ... lifted to EVERY token list and any step budget: the driver loop never makes an
+   out-of-range access to yyPact / yyDef / yyExca / yyAct / yyChk / yyPgo / yyR1 / yyR2 / yyTok1 /
+   yyTok2 and never shifts without a lookahead; every state it pushes is a state (invariant of
+   the loop; the lexer adapter always yields a token class the tables cover).  The one other
+   BadTable of the model, "eval" (an action reading below the stack or applying a function to a
+   value of the wrong shape), is excluded by goyacc's construction and Go's typing, not here. *)
+Theorem C16_no_table_panic : forall fuel toks, ~ table_panic (parse_tokens fuel toks).
+Proof. exact parse_no_table_panic. Qed.
+Print Assumptions C16_no_table_panic.
 
 (* locality, statically: every semantic value an action reads ($k.field) is
    assigned by EVERY production of the grammar symbol at position k (or set by
